@@ -127,14 +127,20 @@ func (e *Enc) appendOwnership(fr *Frame, common *ssa.CallCommon, s Val, newLen T
 		for _, ap := range e.con.Appends {
 			if ap.Expr != nil && ap.Expr.Op == "ident" {
 				// a slice parameter the function appends to by contract
+				isParam := false
 				for _, p := range root.fn.Params {
-					if p.Name() == ap.Expr.Name && fr == root {
-						if _, ok := p.Type().Underlying().(*types.Slice); ok {
+					if p.Name() == ap.Expr.Name {
+						isParam = true
+						if _, ok := p.Type().Underlying().(*types.Slice); ok && fr == root {
 							roots[p] = true
 						}
 					}
 				}
-				continue
+				if isParam {
+					continue
+				}
+				// otherwise a local variable held in a cell (captured by a closure):
+				// the cell is the place
 			}
 			places = append(places, ap)
 		}
@@ -142,6 +148,15 @@ func (e *Enc) appendOwnership(fr *Frame, common *ssa.CallCommon, s Val, newLen T
 	op := common.Args[0]
 	if sliceOwned(op, map[ssa.Value]bool{}, roots) {
 		return
+	}
+	// a local variable kept in a cell (it is captured by a closure) that only ever
+	// holds reslices of a declared place's slice and appends to itself: the
+	// spare capacity written is the declared place's
+	if ld, ok := op.(*ssa.UnOp); ok && ld.Op == token.MUL {
+		if al, ok := ld.X.(*ssa.Alloc); ok && len(places) > 0 && cellHoldsPlace(al, places) {
+			e.note("append into local %s: holds only reslices of a declared append place", al.Comment)
+			return
+		}
 	}
 	e.B.declTop("alloc@entry", "(declare-const alloc@entry Int)\n(assert (<= alloc@entry 0))")
 	alts := []Term{
@@ -177,4 +192,56 @@ func (e *Enc) appendOwnership(fr *Frame, common *ssa.CallCommon, s Val, newLen T
 	}
 	e.addObl(fr, "append-shared", implies(reach, or(alts...)),
 		"append writes into spare capacity only of an array this function allocated or of a place declared (appends) to own it", common.Pos(), nil)
+}
+
+// cellHoldsPlace: every value stored into the local cell is an append to the
+// cell's own content, or a reslice of a slice loaded from a field whose name is
+// the last selector of a declared append place.
+func cellHoldsPlace(al *ssa.Alloc, places []*Clause) bool {
+	fields := map[string]bool{}
+	for _, ap := range places {
+		if ap.Expr != nil && ap.Expr.Op == "sel" {
+			fields[ap.Expr.Name] = true
+		}
+	}
+	if len(fields) == 0 {
+		return false
+	}
+	fromPlace := func(v ssa.Value) bool {
+		for {
+			sl, ok := v.(*ssa.Slice)
+			if !ok {
+				break
+			}
+			v = sl.X
+		}
+		ld, ok := v.(*ssa.UnOp)
+		if !ok || ld.Op != token.MUL {
+			return false
+		}
+		fa, ok := ld.X.(*ssa.FieldAddr)
+		if !ok {
+			return false
+		}
+		st, ok := fa.X.Type().Underlying().(*types.Pointer).Elem().Underlying().(*types.Struct)
+		return ok && fields[st.Field(fa.Field).Name()]
+	}
+	for _, ref := range *al.Referrers() {
+		st, ok := ref.(*ssa.Store)
+		if !ok || st.Addr != al {
+			continue
+		}
+		if call, ok := st.Val.(*ssa.Call); ok {
+			if b, ok := call.Call.Value.(*ssa.Builtin); ok && b.Name() == "append" {
+				if ld, ok := call.Call.Args[0].(*ssa.UnOp); ok && ld.Op == token.MUL && ld.X == al {
+					continue
+				}
+			}
+		}
+		if fromPlace(st.Val) {
+			continue
+		}
+		return false
+	}
+	return true
 }
